@@ -172,6 +172,19 @@ fn check_program(rep: &mut Rep, rng: &mut Rng, src: &str, vars: &[gen::VarDecl],
             let r = mon::run_prog(&revived, b);
             rep.eval();
             if outcome_key(&r) != outcome_key(o) {
+                // documented in cel_value.rs: "The time types will be serialized to milliseconds resolution" -
+                // a folded timestamp / duration constant with a sub-millisecond part comes back truncated.
+                // Classified on its own (exactly this and nothing else) so that it can be listed as a known finding.
+                if let (Out::Val(x), Out::Val(y)) = (o, &r) {
+                    if same_up_to_ms(x, y) {
+                        rep.viol(
+                            "time-constant|sub-millisecond-part-lost",
+                            &format!("`{}` under {}: original {} but the revived ({}) program {}", mon::clip(src, 200), mon::binds_json(b), o.show(), fmt, r.show()),
+                            json!({"source": src, "bindings": mon::binds_json(b)}),
+                        );
+                        continue;
+                    }
+                }
                 rep.viol(
                     &format!("{}|behaviour-differs|{}", fmt, match (o, &r) { (Out::Val(_), Out::Val(_)) => "value", (Out::Err(_), Out::Err(_)) => "error-class", _ => "value-vs-error" }),
                     &format!("`{}` under {}: original {} but the revived program {}", mon::clip(src, 200), mon::binds_json(b), o.show(), r.show()),
@@ -206,6 +219,27 @@ fn check_program(rep: &mut Rep, rng: &mut Rng, src: &str, vars: &[gen::VarDecl],
     rep.sample(|| json!({"stage": stage, "source": mon::clip(src, 200), "outcome": mon::clip(&originals[0].show(), 100)}));
 }
 
+/// equal except that timestamps / durations may differ by less than a millisecond
+fn same_up_to_ms(a: &CelValue, b: &CelValue) -> bool {
+    match (a, b) {
+        (CelValue::TimeStamp(x), CelValue::TimeStamp(y)) => {
+            let d = x.signed_duration_since(*y);
+            x != y && d < chrono::Duration::milliseconds(1) && d > chrono::Duration::milliseconds(-1)
+        }
+        (CelValue::Duration(x), CelValue::Duration(y)) => match x.checked_sub(y) {
+            Some(d) => x != y && d < chrono::Duration::milliseconds(1) && d > chrono::Duration::milliseconds(-1),
+            None => false,
+        },
+        (CelValue::List(x), CelValue::List(y)) => {
+            x.len() == y.len() && x.iter().zip(y.iter()).all(|(p, q)| mon::canon(p) == mon::canon(q) || same_up_to_ms(p, q))
+        }
+        (CelValue::Map(x), CelValue::Map(y)) => {
+            x.len() == y.len() && x.iter().all(|(k, p)| y.get(k).map(|q| mon::canon(p) == mon::canon(q) || same_up_to_ms(p, q)).unwrap_or(false))
+        }
+        _ => false,
+    }
+}
+
 fn sort_params(v: &mut Value) {
     if let Some(p) = v.get_mut("details").and_then(|d| d.get_mut("params")).and_then(|p| p.as_array_mut()) {
         p.sort_by_key(|x| x.to_string());
@@ -221,6 +255,27 @@ pub fn run(ctx: &mut Ctx) {
         let vars: Vec<gen::VarDecl> = ["a", "b", "c", "d", "e"].iter().map(|n| gen::VarDecl { name: n.to_string(), ty: gen::Ty::Int }).collect();
         check_program(rep, rng, crate::corpus::CORPUS[idx as usize], &vars, "corpus");
     });
+    // ---- every pool value (and random values) as a folded constant, alone and inside containers / comparisons ----
+    let pool = crate::vals::full_pool();
+    let npool = pool.len() as u64;
+    let nconst = npool + ctx.n(20_000, 300_000);
+    ctx.stage("constant-values", nconst, true, |idx, rng, rep| {
+        let v = if idx < npool { pool[idx as usize].clone() } else { crate::vals::random_value(rng, 2) };
+        let lit = match crate::vals::spell(&v) {
+            Some(l) => l,
+            None => {
+                rep.count("constant_values_unspellable");
+                return;
+            }
+        };
+        rep.count(&format!("constant_values/{}", mon::canon(&v).split(':').next().unwrap_or("?")));
+        let vars = vec![gen::VarDecl { name: "x".into(), ty: gen::Ty::Int }];
+        for shape in ["@", "[@]", "{'k': @}", "x == @", "[@, x]", "type(@)", "string(@)", "x ? @ : [@]"] {
+            let src = shape.replace('@', &lit);
+            check_program(rep, rng, &src, &vars, "constant-values");
+        }
+    });
+
     let n = ctx.n(60_000, 1_000_000);
     ctx.stage("generated", n, true, |_idx, rng, rep| {
         // constant-rich: few variables, wild literal values, so folded constants of every type occur
